@@ -246,6 +246,11 @@ def check_cursor_bracket(R, b, ctx=None, root=None):
 # reader/writer agreement: index() consumes exactly the components push produced
 
 
+def tproj_(t, path):
+    from expr import tproj
+    return tproj(t, path)
+
+
 def r_reader_writer(F, R, cat=None):
     cat = cat or Catalogue(F)
     n = 0
@@ -289,15 +294,34 @@ def r_reader_writer(F, R, cat=None):
                 uses = [nd for nd in walk(t) if nd[0] == "call" and nd[1][1] == "index" and len(nd[2]) == 2]
                 direct = [u for u in uses if u[2][1] == pw]
                 succ = [u for u in uses if u[2][1] == ("bin", "Add", pw, ("const", "1"))]
-                if direct and not succ and len(uses) == 1:
-                    ok = direct[0][2][0] == ("place", b.key, ("arg", 1), ())
+                selfp = ("place", b.key, ("arg", 1), ())
+                if adt == "impls::columns::ColumnsRegion":
+                    ok = any(nd[0] == "call" and nd[1] == ("Region", "index") and nd[2][1] == pw
+                             for nd in walk(t))
+                elif direct and not succ and len(uses) == 1:
+                    ok = direct[0][2][0] == selfp
                 elif len(direct) == 1 and len(succ) == 1 and direct[0][2][0] == succ[0][2][0]:
                     # consumed as a pair, in order, by the inner region
                     pr = [nd for nd in walk(t) if nd[0] == "agg" and nd[1] == "tuple" and len(nd[2]) == 2]
                     ok = bool(pr) and pr[0][2] == (direct[0], succ[0])
-                elif adt == "impls::columns::ColumnsRegion":
-                    ok = any(nd[0] == "call" and nd[1] == ("Region", "index") and nd[2][1] == pw
-                             for nd in walk(t))
+                elif not uses:
+                    # built-in element access `self[k]` / `self.as_slice()[k]`: the subscript of the
+                    # bounds check is the parameter itself
+                    base = t
+                    while base[0] == "call" and base[1][1] in ("as_slice", "deref", "as_ref", "borrow") and base[2]:
+                        base = tproj_(base[2][0], base[3])
+                    subs = []
+                    for bi_ in sorted(b.live_blocks()):
+                        tt = b.term(bi_)
+                        if tt["k"] == "assert" and tt.get("msg") == "bounds":
+                            subs.append(operand_tree(ctx, tt["index"]))
+                    if base == ("place", b.key, ("arg", 1), ("[]",)) and subs and all(x == pw for x in subs):
+                        ok = True
+                    elif any(nd[0] == "bin" and pw in nd for nd in walk(t)) or (subs and any(x != pw for x in subs)):
+                        ok = False
+                    else:
+                        R.undecided_site("R-READER", b.label(), "element access not recognised: %s" % why)
+                        continue
             R.check("R-READER", b.label(), ok,
                     construct="index() uses the components push returned, in order, unmodified",
                     where=b.where(), detail=why)
@@ -452,6 +476,15 @@ def r_fanout(F, R, cat=None):
 # ColumnsRegion routing
 
 
+def range_from_inner_len(t):
+    """the end bound X of a `len(self.inner)..X` range somewhere in t, else None"""
+    for nd in walk(t):
+        if nd and nd[0] == "agg" and nd[1] == "Range::Range" and len(nd[2]) == 2 and "inner" in show(nd[2][0]) and \
+                any(x and x[0] == "call" and x[1][1] == "len" for x in walk(nd[2][0])):
+            return nd[2][1]
+    return None
+
+
 def column_bound_foreign(F, b, ctx, creates):
     """positive evidence only: the column-creation guard compares the column count with the length
     of something *reached through* the item (a field of it) that is not one of the forms the
@@ -469,11 +502,17 @@ def column_bound_foreign(F, b, ctx, creates):
                 own.add(_rekey_root(fm, lb.key, b.key))
     for e in creates:
         for f in facts_at(e.ctx, e.bb):
-            if f[0] not in ("Lt", "Le", "Gt", "Ge"):
-                continue
             sides = []
-            for side in (f[1], f[2]):
-                sides.extend(side[1] if side[0] == "phi" else [side])
+            if f[0] == "variant":
+                end = range_from_inner_len(f[1])
+                if end is None:
+                    continue
+                sides.extend(end[1] if end[0] == "phi" else [end])
+            elif f[0] not in ("Lt", "Le", "Gt", "Ge"):
+                continue
+            else:
+                for side in (f[1], f[2]):
+                    sides.extend(side[1] if side[0] == "phi" else [side])
             for side in sides:
                 t = nobb(norm_len(side))
                 if t[0] != "len" or t[1][0] != "place" or t[1][1] != b.key or t[1][2] != ("arg", 2):
@@ -522,7 +561,7 @@ def r_columns(F, R, cat=None):
             # both the column and the value come out of one zip / enumerate over the item
             recv_raw = e.ctx.org.operand(e.term["args"][0])
             val_raw = e.ctx.org.operand(e.term["args"][1])
-            aligned = from_item and same_pairing(e.ctx, recv_raw, val_raw)
+            aligned = from_item and (same_pairing(e.ctx, recv_raw, val_raw) or counter_pairing(e.ctx, e.term, val_raw))
         # the row of cell indices is handed, as one item, to self.indices and its result returned
         rowpush = [e for e in effs if e.tag == ("Push", "push") and ("indices", ()) in self_field_targets(e, ctx)
                    and e.ctx is ctx]
@@ -536,7 +575,10 @@ def r_columns(F, R, cat=None):
         guard_ok = False
         for e in creates:
             for f in facts_at(e.ctx, e.bb):
-                if f[0] in ("Lt", "Le", "Gt", "Ge") and ("inner" in show(f[1]) or "inner" in show(f[2])):
+                if f[0] in ("Lt", "Le", "Gt", "Ge", "Eq") and ("inner" in show(f[1]) or "inner" in show(f[2])):
+                    guard_ok = True
+                # `for _ in self.inner.len()..n { create }`: one column per missing position
+                if f[0] == "variant" and range_from_inner_len(f[1]) is not None:
                     guard_ok = True
         # ... and exactly as many as the row is long: the bound the column count is compared with is
         # the item's own length, not the width of wherever the item came from
@@ -554,7 +596,9 @@ def r_columns(F, R, cat=None):
     for b in [x for x in F.bodies.values() if x.self_adt == "impls::columns::ReadColumnsInner" and x.name == "get"]:
         R.saw(b)
         ctx = Ctx(b)
-        rets = [tree(ctx, o) for o in ctx.org.local(0)]
+        from expr import ret_alts, NONE
+        rets = [t for t in ret_alts(ctx) if t != NONE and not (
+            t[0] == "call" and t[1] == ("FromResidual", "from_residual"))]
         ok = len(rets) == 1 and rets[0][0] == "call" and rets[0][1] == ("Region", "index")
         if ok:
             from expr import nobb
@@ -581,6 +625,112 @@ def r_columns(F, R, cat=None):
             ok = ok and len(subs) == forms.count("builtin") and all(s == param for s in subs)
         R.check("R-COLUMNS", b.label(), ok, construct="get(i) = columns[i].index(index[i])",
                 where=b.where(), detail="returns %s" % [show(t) for t in rets])
+
+
+def counter_pairing(ctx, term, val_origins):
+    """closure form `|value| { let i = counter; counter += 1; self.inner[i].push(value) }` (or the
+    increment after the use): the k-th element goes to column k when the subscript is a captured
+    counter that starts at 0 in the enclosing body and is incremented by exactly one, on every
+    returning path of the closure, after it was read for the subscript."""
+    from expr import before
+    body = ctx.body
+    if ctx.parent is None or body.kind != "Closure":
+        return False
+    if not any(r == ("arg", 2) and not p for (r, p) in val_origins):
+        return False
+    # the subscript operand of the IndexMut / get_mut call that produced the receiver
+    def subscript(op, depth=0):
+        if op["k"] not in ("copy", "move") or depth > 6:
+            return None
+        for (r, p) in ctx.org.operand(op):
+            if r[0] == "call":
+                t = body.term(r[1])
+                tg = callee_tag(t.get("callee"))
+                if tg[1] in ("unwrap", "expect") and t["args"]:
+                    return subscript(t["args"][0], depth + 1)
+                if (tg == ("IndexMut", "index_mut") or (tg[1] == "get_mut" and tg[0] in ("slice", "Vec", "array"))) \
+                        and len(t["args"]) == 2:
+                    return t["args"][1]
+        return None
+    sub = subscript(term["args"][0])
+    if sub is None or sub["k"] == "const":
+        return False
+    ls = load_site(body, ctx, sub)
+    if ls is None:
+        if sub["place"]["p"]:
+            return False
+        return False
+    (lbi, lsi, lplace) = ls
+
+    def upvar_of(pl, depth=0):
+        """index k when the place is the captured upvar k (directly, or through a temporary that
+        holds the captured `&mut`)"""
+        ups = [e for e in pl["p"] if e["k"] == "field" and "closure" in e]
+        if pl["l"] == 1 and len(ups) == 1:
+            return ups[0]["i"]
+        if depth > 4 or any(e["k"] != "deref" for e in pl["p"]):
+            return None
+        defs = [d_ for d_ in ctx.org.defs.get(pl["l"], ()) if d_[0] == () and not d_[3]]
+        if len(defs) != 1 or defs[0][1] != "stmt":
+            return None
+        rv = ctx.org.stmt(*defs[0][2])["rv"]
+        if rv["k"] == "use" and rv["op"]["k"] in ("copy", "move"):
+            return upvar_of(rv["op"]["place"], depth + 1)
+        if rv["k"] == "ref":
+            return upvar_of(rv["place"], depth + 1)
+        return None
+    k = upvar_of(lplace)
+    if k is None:
+        return False
+    stores = []
+    for bi in sorted(body.live_blocks()):
+        for si, st in enumerate(body.blocks[bi]["stmts"]):
+            if st["k"] == "assign" and st["place"]["p"] and upvar_of(st["place"]) == k:
+                stores.append((bi, si, st))
+    if len(stores) != 1:
+        return False
+    (sbi, ssi, sst) = stores[0]
+
+    def single_def_rv(l):
+        defs = [d_ for d_ in ctx.org.defs.get(l, ()) if d_[0] == () and not d_[3]]
+        if len(defs) != 1 or defs[0][1] != "stmt":
+            return None
+        return ctx.org.stmt(*defs[0][2])["rv"]
+
+    def is_counter_plus_one(rv, depth=0):
+        """the stored value is (the captured counter) + 1, read on the MIR itself: the counter's
+        flow-insensitive provenance is just its initial constant"""
+        if rv is None or depth > 5:
+            return False
+        if rv["k"] == "use" and rv["op"]["k"] in ("copy", "move"):
+            pl = rv["op"]["place"]
+            if pl["p"] and all(e["k"] == "field" for e in pl["p"]) and pl["p"][0].get("i") == 0 and len(pl["p"]) == 1:
+                return is_counter_plus_one(single_def_rv(pl["l"]), depth + 1)   # (sum, overflow).0
+            if not pl["p"]:
+                return is_counter_plus_one(single_def_rv(pl["l"]), depth + 1)
+            return False
+        if rv["k"] == "binop" and rv["op"] in ("Add", "AddWithOverflow", "AddUnchecked"):
+            for (x, y) in ((rv["a"], rv["b"]), (rv["b"], rv["a"])):
+                if y["k"] == "const" and y.get("int") == "1" and x["k"] in ("copy", "move"):
+                    xp = x["place"]
+                    if xp["p"]:
+                        return upvar_of(xp) == k
+                    xr = single_def_rv(xp["l"])
+                    if xr is not None and xr["k"] == "use" and xr["op"]["k"] in ("copy", "move"):
+                        return upvar_of(xr["op"]["place"]) == k
+        return False
+    if not is_counter_plus_one(sst["rv"]):
+        return False
+    if not before(body, (lbi, lsi), (sbi, ssi)):
+        return False
+    if body.can_return_avoiding({sbi}):
+        return False
+    # starts at zero in the enclosing body
+    for (pc, (r, p)) in ctx.upvars.get(k, ()):
+        t0 = tree(pc, (r, p))
+        if t0 != ("const", "0"):
+            return False
+    return bool(ctx.upvars.get(k))
 
 
 def same_pairing(ctx, recv_origins, val_origins):
